@@ -25,7 +25,7 @@ def describe(tier):
 def shards(tier, seed):
     ts = universe.rh(tier)
     vm = ["ramp"] if tier == "quick" else ["ramp", "extreme"]
-    out = [(t, v, p) for t in ts for v in vm for p in PLACES]
+    out = [(t, v, p) for t in ts for v in vm for p in (PLACES + (["ba-hole"] if tier == "thorough" else []))]
     return out[seed % len(out):] + out[: seed % len(out)]
 
 
